@@ -1020,6 +1020,61 @@ fn assemble_k(_case: &Value, inputs: &Value) -> Value {
     }
 }
 
+
+// C18 whole listing: a scratch tree of search directories and files; the dependency listing of a program, its compilation,
+// and for every file whether removing it changes what the compilation produces (then the compilation reads it)
+fn deps_k(_case: &Value, inputs: &Value) -> Value {
+    use chialisp::compiler::compiler::{compile_file, DefaultCompilerOpts};
+    use chialisp::compiler::comptypes::CompilerOpts;
+    use chialisp::compiler::preprocessor::gather_dependencies;
+    use chialisp::compiler::sexp::decode_string;
+    use std::collections::HashMap;
+    static CTR: std::sync::atomic::AtomicUsize = std::sync::atomic::AtomicUsize::new(0);
+    let root = std::env::temp_dir().join(format!("verif_c18w_{}_{}", std::process::id(), CTR.fetch_add(1, std::sync::atomic::Ordering::SeqCst)));
+    let _ = std::fs::remove_dir_all(&root);
+    let mut dirs = Vec::new();
+    for d in inputs["dirs"].as_array().unwrap().iter() {
+        let p = root.join(d.as_str().unwrap());
+        std::fs::create_dir_all(&p).unwrap();
+        dirs.push(p.to_str().unwrap().to_string());
+    }
+    let files: Vec<(String, String)> = inputs["files"].as_array().unwrap().iter()
+        .map(|f| (f[0].as_str().unwrap().to_string(), f[1].as_str().unwrap().to_string())).collect();
+    for (rel, content) in files.iter() {
+        std::fs::write(root.join(rel), content).unwrap();
+    }
+    let src = inputs["source"].as_str().unwrap();
+    let input_name = root.join("main.clsp").to_str().unwrap().to_string();
+    let prefix = format!("{}/", root.to_str().unwrap());
+    let rel = |s: &str| s.strip_prefix(&prefix).unwrap_or(s).to_string();
+    let mk_opts = || -> Rc<dyn CompilerOpts> { Rc::new(DefaultCompilerOpts::new(&input_name)).set_search_paths(&dirs) };
+    let compile = || -> String {
+        let mut a = Allocator::new();
+        let runner = Rc::new(DefaultProgramRunner::new());
+        let mut syms = HashMap::new();
+        match compile_file(&mut a, runner, mk_opts(), src, &mut syms) {
+            Ok(c) => format!("ok {}", c),
+            Err(e) => format!("err {}", e.1.replace(&prefix, "")),
+        }
+    };
+    let listed = match gather_dependencies(mk_opts(), &input_name, src) {
+        Ok(l) => json!(l.iter().map(|d| rel(&decode_string(&d.name))).collect::<Vec<String>>()),
+        Err(e) => json!({"err": e.1.replace(&prefix, "")}),
+    };
+    let base = compile();
+    let mut influences = Vec::new();
+    for (r, content) in files.iter() {
+        std::fs::remove_file(root.join(r)).unwrap();
+        let without = compile();
+        std::fs::write(root.join(r), content).unwrap();
+        if without != base {
+            influences.push(r.clone());
+        }
+    }
+    let _ = std::fs::remove_dir_all(&root);
+    json!({"listed": listed, "compile": base, "influences": influences})
+}
+
 pub fn dispatch(kernel: &str, case: &Value, inputs: &Value) -> Value {
     match kernel {
         "assemble" => assemble_k(case, inputs),
@@ -1038,6 +1093,7 @@ pub fn dispatch(kernel: &str, case: &Value, inputs: &Value) -> Value {
         "repl" => repl_k(case, inputs),
         "cldb_trace" => cldb_trace_k(case, inputs),
         "read_new_file" => read_new_file_k(case, inputs),
+        "deps" => deps_k(case, inputs),
         "atomic_write" => atomic_write_k(case, inputs),
         "intmode" => intmode_k(case, inputs),
         "classic_text" => classic_text_k(case, inputs),
